@@ -175,14 +175,7 @@ def judge(case, outs, info):
     wire = o["wire"]
     app = case["reqs"][0]["app"]
     rq = case["reqs"][0]["req"]
-    # 1. refused text never reaches the wire, in any position
-    for a in app["acts"]:
-        if a[0] == "sr" and (refusable(a) or unencodable(a)):
-            for piece in [a[1]] + [x for n, v in a[2] for x in (n, v)]:
-                if bad_text(piece) or any(ord(c) > 255 for c in piece):
-                    enc = piece.encode("latin-1", "ignore")
-                    if len(enc) >= 3 and enc in wire:
-                        fails.append("text of a refusable start_response call is on the wire: %r" % piece)
+    # 1. a call that must be refused as the very first action: no byte, exception to handle_error
     first = app["acts"][0] if app["acts"] else None
     if first is not None and first[0] == "sr" and (refusable(first) or unencodable(first)):
         if wire:
@@ -190,6 +183,14 @@ def judge(case, outs, info):
         if o["ended"][0] != 2:
             fails.append("a refusable start_response call did not raise before any byte (ended=%r)" % (o["ended"],))
         return fails
+    # 1b. refused text never reaches the wire, in any position
+    for a in app["acts"]:
+        if a[0] == "sr" and (refusable(a) or unencodable(a)):
+            for piece in [a[1]] + [x for n, v in a[2] for x in (n, v)]:
+                if bad_text(piece) or any(ord(c) > 255 for c in piece):
+                    enc = piece.encode("latin-1", "ignore")
+                    if len(enc) >= 3 and enc in wire:
+                        fails.append("text of a refusable start_response call is on the wire: %r" % piece)
     if not wire:
         return fails
     # 2. the head, line by line
